@@ -102,10 +102,12 @@ pub fn world_weighted() -> World {
 #[derive(Clone, Debug)]
 pub struct Col { pub name: String, pub num: bool }
 
-pub struct QGen<'a> { pub r: &'a mut Rng, pub specs: &'a [TableSpec], pub fresh: u32, pub allow_minmax: bool, pub allow_set: bool, pub allow_outer: bool }
+pub struct QGen<'a> { pub r: &'a mut Rng, pub specs: &'a [TableSpec], pub fresh: u32, pub allow_minmax: bool, pub allow_set: bool, pub allow_outer: bool,
+    /// boolean projections (comparisons, NOT) in the outermost select list
+    pub bool_items: bool }
 
 impl<'a> QGen<'a> {
-    pub fn new(r: &'a mut Rng, specs: &'a [TableSpec]) -> Self { QGen { r, specs, fresh: 0, allow_minmax: true, allow_set: true, allow_outer: true } }
+    pub fn new(r: &'a mut Rng, specs: &'a [TableSpec]) -> Self { QGen { r, specs, fresh: 0, allow_minmax: true, allow_set: true, allow_outer: true, bool_items: false } }
     fn name(&mut self, p: &str) -> String { self.fresh += 1; format!("{}{}", p, self.fresh) }
 
     /// something that can stand after FROM, with the alias it must be referred by
@@ -116,7 +118,9 @@ impl<'a> QGen<'a> {
             let cols = t.cols.iter().map(|c| Col { name: c.name.to_string(), num: !matches!(c.ty, ColTy::TextVals(_)) }).collect();
             (format!("{} AS {}", t.name, alias), alias, cols)
         } else {
+            let saved = self.bool_items; self.bool_items = false;
             let (q, cols) = self.query(depth - 1);
+            self.bool_items = saved;
             let alias = self.name("s");
             (format!("({}) AS {}", q, alias), alias, cols)
         }
@@ -127,7 +131,12 @@ impl<'a> QGen<'a> {
         if nums.is_empty() { return None; }
         let c = self.r.pick(&nums).name.clone();
         let k = self.r.range(1, 9);
-        Some(match self.r.below(6) {
+        Some(match self.r.below(11) {
+            6 => format!("- {}.{}", alias, c),
+            7 => format!("-(-{}.{})", alias, c),
+            8 => format!("ABS({}.{} - {})", alias, c, k * 10),
+            9 => format!("{}.{} / {}", alias, c, k + 1),
+            10 => format!("COALESCE({}.{}, {})", alias, c, k),
             0 => format!("{}.{} + {}", alias, c, k),
             1 => format!("{} * {}.{}", k, alias, c),
             2 => format!("{}.{} - {}", alias, c, k),
@@ -141,10 +150,13 @@ impl<'a> QGen<'a> {
         let c = self.r.pick(cols).clone();
         Some(if c.num {
             let k = self.r.range(0, 100);
-            match self.r.below(4) { 0 => format!("{}.{} > {}", alias, c.name, k), 1 => format!("{}.{} <= {}", alias, c.name, k),
-                2 => format!("{}.{} > {} AND {}.{} < {}", alias, c.name, k, alias, c.name, k + 50), _ => format!("{}.{} IN ({}, {}, {})", alias, c.name, k, k + 1, k + 2) }
+            match self.r.below(9) { 0 => format!("{}.{} > {}", alias, c.name, k), 1 => format!("{}.{} <= {}", alias, c.name, k),
+                2 => format!("{}.{} > {} AND {}.{} < {}", alias, c.name, k, alias, c.name, k + 50), 3 => format!("{}.{} IN ({}, {}, {})", alias, c.name, k, k + 1, k + 2),
+                4 => format!("{}.{} >= {}", alias, c.name, k), 5 => format!("{} < {}.{}", k, alias, c.name), 6 => format!("{}.{} BETWEEN {} AND {}", alias, c.name, k, k + 40),
+                7 => format!("NOT ({}.{} < {})", alias, c.name, k), _ => format!("{}.{} < {} OR {}.{} > {}", alias, c.name, k, alias, c.name, k + 30) }
         } else {
-            match self.r.below(2) { 0 => format!("{}.{} = 'Paris'", alias, c.name), _ => format!("{}.{} IN ('Paris', 'paid', 'new')", alias, c.name) }
+            match self.r.below(5) { 0 => format!("{}.{} = 'Paris'", alias, c.name), 1 => format!("{}.{} IN ('Paris', 'paid', 'new')", alias, c.name),
+                2 => format!("{}.{} >= 'Nice'", alias, c.name), 3 => format!("{}.{} <= 'paid'", alias, c.name), _ => format!("NOT ({}.{} = 'new')", alias, c.name) }
         })
     }
 
@@ -160,7 +172,10 @@ impl<'a> QGen<'a> {
                 let rn: Vec<&Col> = rc.iter().filter(|c| c.num).collect();
                 if ln.is_empty() || rn.is_empty() { return self.simple(depth); }
                 let jk = if self.allow_outer { match self.r.below(6) { 0 => "LEFT JOIN", 1 => "RIGHT JOIN", 2 => "FULL JOIN", _ => "JOIN" } } else { "JOIN" };
-                let on = format!("{}.{} = {}.{}", la, self.r.pick(&ln).name, ra, self.r.pick(&rn).name);
+                // the equality is written with either side first, sometimes with a second conjunct
+                let (lcn, rcn) = (self.r.pick(&ln).name.clone(), self.r.pick(&rn).name.clone());
+                let eq = if self.r.chance(1, 2) { format!("{}.{} = {}.{}", la, lcn, ra, rcn) } else { format!("{}.{} = {}.{}", ra, rcn, la, lcn) };
+                let on = if self.r.chance(1, 5) { let k = self.r.range(0, 50); if self.r.chance(1, 2) { format!("{} AND {}.{} > {}", eq, la, self.r.pick(&ln).name, k) } else { format!("{}.{} <= {} AND {}", ra, self.r.pick(&rn).name, k + 50, eq) } } else { eq };
                 let mut items = vec![]; let mut out = vec![];
                 for (a, cs) in [(&la, &lc), (&ra, &rc)] {
                     for c in cs.iter() { if self.r.chance(1, 2) || out.is_empty() { let n = self.name("c"); items.push(format!("{}.{} AS {}", a, c.name, n)); out.push(Col { name: n, num: c.num }); } }
@@ -214,6 +229,9 @@ impl<'a> QGen<'a> {
             if let Some(e) = self.num_expr(&a, &cs) { let n = self.name("e"); items.push(format!("{} AS {}", e, n)); out.push(Col { name: n, num: true }); }
         }
         if items.is_empty() { let c = &cs[0]; let n = self.name("c"); items.push(format!("{}.{} AS {}", a, c.name, n)); out.push(Col { name: n, num: c.num }); }
+        if self.bool_items && self.r.chance(1, 3) {
+            if let Some(p) = self.predicate(&a, &cs) { if !p.contains(" AND ") && !p.contains(" OR ") { let n = self.name("b"); items.push(format!("{} AS {}", p, n)); out.push(Col { name: n, num: true }); } }
+        }
         let wh = if self.r.chance(1, 2) { self.predicate(&a, &cs).map(|p| format!(" WHERE {}", p)).unwrap_or_default() } else { String::new() };
         (format!("SELECT {} FROM {}{}", items.join(", "), s, wh), out)
     }
